@@ -416,6 +416,27 @@ def canon_call(func, args, kws):
             return ("cols", items)
     if func == G("numpy.transpose") and len(args) == 1 and not kws:
         return canon_attr(args[0], "T")
+    if func == G("numpy.arange") and kws and all(k in ("start", "stop", "step") for k, _ in kws) and not any(a[0] == "star" for a in args):
+        # keyword spelling of arange -> positional (start, stop[, step])
+        kd = dict(kws)
+        pos = list(args)
+        if len(pos) == 1 and ("start" in kd or "stop" not in kd) is False:
+            pass
+        vals = {}
+        if len(pos) == 1 and "stop" not in kd and "start" not in kd:
+            vals["stop"] = pos[0]
+        else:
+            for n_, a_ in zip(("start", "stop", "step"), pos):
+                vals[n_] = a_
+        vals.update(kd)
+        if "stop" in vals:
+            out = [vals.get("start", ("const", 0)), vals["stop"]] + ([vals["step"]] if "step" in vals else [])
+            if "start" not in vals and "step" not in vals:
+                out = [vals["stop"]]
+            return ("call", func, tuple(out), ())
+    if func == G("dict") and not args and all(k != "**" for k, _ in kws):
+        # dict(a=x, b=y) is {"a": x, "b": y} (same insertion order)
+        return ("dict", tuple((("const", k), v) for k, v in kws))
     if func == G("getattr") and len(args) == 2 and not kws and args[1][0] == "const" and isinstance(args[1][1], str):
         return canon_attr(args[0], args[1][1])
 
